@@ -3,8 +3,11 @@ rendering of a window must not depend on the windows decoded before it (caches, 
 were rendered one by one on fresh parsers are fed again as one long stream (same thread, and pairwise interleaved
 on two threads) through a single parser and every rendering is compared with the stand-alone one."""
 import io
+import os
 
 from vlib import core, ev, wire, gen, histories as H
+
+_TERMINAL_DONE = []
 
 
 def scribble(obj, depth=0):
@@ -39,12 +42,12 @@ def run_stream(res, key_prefix, cases, rng, label):
     order = list(range(len(cases)))
     rng.shuffle(order)
     import copy
-    for mode in ('one_thread', 'two_threads', 'checkpointed'):
+    for mode in ('one_thread', 'two_threads', 'checkpointed', 'fed_in_pieces'):
         parser = ev.new_parser()
         ts = 5000
         expected_by_first_ts = {}
         items = []
-        if mode in ('one_thread', 'checkpointed'):
+        if mode in ('one_thread', 'checkpointed', 'fed_in_pieces'):
             for i in order[:len(order) if mode == 'one_thread' else 300]:
                 seq, texts, desc = cases[i]
                 items.append([(6, a) for a in seq])
@@ -84,6 +87,16 @@ def run_stream(res, key_prefix, cases, rng, label):
                             clone.feed(e)
                         res.count('parser_checkpoints_resumed')
                     events = events[cut:]
+                if mode == 'fed_in_pieces':
+                    # the generator interface, the window handed over in several feed_generator() calls (also cut in
+                    # the middle of the window; some pieces are empty)
+                    cuts = sorted(rng.randrange(len(events) + 1) for _ in range(rng.choice((1, 2, 3))))
+                    prev = 0
+                    for c in cuts + [len(events)]:
+                        for t in parser.feed_generator(iter(events[prev:c])):
+                            got.setdefault((gi, t.ktraces[0].tid), []).append(str(t))
+                        prev = c
+                    continue
                 for e in events:
                     t = parser.feed(e)
                     if t is not None:
@@ -95,7 +108,7 @@ def run_stream(res, key_prefix, cases, rng, label):
                           f'parser raised {x!r} at {core.short_tb(x)}')
             return
         res.count(f'stream_windows_{mode}', len(order))
-        if mode in ('one_thread', 'checkpointed'):
+        if mode in ('one_thread', 'checkpointed', 'fed_in_pieces'):
             pairs = [((gi, 6), cases[i]) for gi, i in enumerate(order[:len(items)])]
         else:
             pairs = []
@@ -185,6 +198,12 @@ def run_files(res, key_prefix, cases, rng, label, limit=600):
                 k += 1
             got.setdefault(k, []).append(str(t))
         res.count(f'file_windows_{kind}', len(order))
+        if kind == 'v2' and not _TERMINAL_DONE and os.environ.get('VERIF_SHARD', '0') in ('0', '3'):
+            # once per process (shards 0 and 3): the same dump through the command line on a pipe and on terminals
+            _TERMINAL_DONE.append(1)
+            from vlib import cli
+            if not cli.terminal_agrees(res, key_prefix, data, label):
+                return
         for gi, i in enumerate(order):
             seq, texts, desc = cases[i]
             if got.get(gi, []) != texts:
@@ -216,7 +235,12 @@ def run_stretched(res, key_prefix, cases, rng, label, rungs):
     for w in rungs:
         seq, texts, desc = rng.choice(startable)
         where = rng.choice((1, len(seq) - 1))              # right after the START / right before the last record
-        events, own = H.stretched_events(seq, where, w, rng)
+        # thousands of windows open at once instead of one long one (every record is appended to every open window of
+        # its thread, so the cost is quadratic: width rungs end at 5000)
+        wide = w <= 5000 and rng.random() < 0.7
+        events, own = H.stretched_events(seq, where, w, rng, wide=wide)
+        if wide:
+            res.count('stretched_windows_wide')
         filler = events[where:where + len(events) - len(seq)]
         parser = ev.new_parser()
         got = []
@@ -233,7 +257,7 @@ def run_stretched(res, key_prefix, cases, rng, label, rungs):
         res.count('stretched_window_records', len(events))
         if got != texts:
             res.violation(f'{key_prefix}-depends-on-window-length', f'{label}: {desc}: rendered {got} when its thread produces '
-                          f'{len(filler)} unrelated records {"after the START" if where == 1 else "before the last record"} '
+                          f'{len(filler)} {"STARTs of distinct ids (all left open)" if wide else "unrelated records"} {"after the START" if where == 1 else "before the last record"} '
                           f'(window of {len(events)}), {texts} without them', {'description': desc, 'window': w})
             return
 
